@@ -20,6 +20,8 @@ type VM struct {
 	callStack []*CallFrame
 	// csCount - length of callStack
 	csCount int
+	// evalDepth - see EnterEval
+	evalDepth int
 	// csModuleID - index of current module (the moduleID at the top of callStack)
 	csModuleID int
 
@@ -123,7 +125,29 @@ func (vm *VM) PushCallFrame(callFrame *CallFrame) {
 // MaxCallDepth - how many calls may be active at the same time. Every Zn call costs Go stack;
 // a recursion that never ends would otherwise overflow it, which no recover can catch and which
 // ends the whole process. (1 GB of Go stack holds several times this many calls.)
-const MaxCallDepth = 100000
+const MaxCallDepth = 20000
+
+// MaxEvalDepth - how many statements and (sub)expressions may be in the middle of their
+// evaluation at the same time. The evaluator recurses once per level: a call that sits inside
+// nested blocks, operands and literals costs far more Go stack than a bare one, so counting
+// calls alone does not keep a runaway recursion (or a gigantic flat expression) from
+// overflowing the Go stack.
+const MaxEvalDepth = 200000
+
+// EnterEval - one more statement / expression is being evaluated; false when that exceeds
+// MaxEvalDepth (nothing is entered then)
+func (vm *VM) EnterEval() bool {
+	if vm.evalDepth >= MaxEvalDepth {
+		return false
+	}
+	vm.evalDepth++
+	return true
+}
+
+// LeaveEval - the statement / expression entered last has been evaluated
+func (vm *VM) LeaveEval() {
+	vm.evalDepth--
+}
 
 // CallDepthExceeded - whether another call would exceed MaxCallDepth
 func (vm *VM) CallDepthExceeded() bool {
